@@ -373,7 +373,7 @@ def parse_client_stream(data):
     return pkts, b"", None
 
 
-def parse_server_packet(data, pos=0, strict=False):
+def parse_server_packet(data, pos=0, strict=False, raw_props=False):
     """Decode one packet a server sends (lenient about property legality unless strict)."""
     b0, body, end = split_packet(data, pos)
     typ, flags = b0 >> 4, b0 & 0x0F
@@ -404,7 +404,12 @@ def parse_server_packet(data, pos=0, strict=False):
             raise Malformed("CONNACK acknowledge flags")
         pkt["session_present"] = bool(af)
         pkt["rc"] = c.u8()
-        pkt["props"], pkt["props_raw"] = parse_props(c, name, ALLOWED[name], strict=strict)
+        if raw_props:
+            n = c.var()
+            pkt["props_raw"] = c.take(n)
+            pkt["props"] = []
+        else:
+            pkt["props"], pkt["props_raw"] = parse_props(c, name, ALLOWED[name], strict=strict)
     elif name in ("PUBACK", "PUBREC", "PUBREL", "PUBCOMP"):
         pkt["id"] = c.u16()
         pkt["rc"] = 0
